@@ -87,7 +87,7 @@ def stable_under_reads(ctx, out, cases, label):
                     n.longest_sustain, n.end_tick
                 try:
                     c.notes_per_second(i, d)
-                except ValueError:
+                except Exception:  # noqa: BLE001  what a rate query answers or raises is C16 / C18's business; here only what it leaves behind
                     pass
         after = impl.dump_chart(c, [])
         if before != after:
